@@ -66,6 +66,8 @@ def _tok(ctx, spelling):
 
 def check(ctx, rep):
     from . import c06, _share
+    from . import c02 as _c02
+    _share.share(ctx, rep, _c02, ('sign.',), 'the integer operators \\ and MOD give the quotient truncated towards zero and a remainder with the sign of the dividend', tolerate_missing_anchor=True)
     from . import c05 as _c05
     _share.share(ctx, rep, _c05, ('no-operand-mutation', 'negabs.'), 'evaluating an expression never changes a variable that occurs in it: operators work on copies', tolerate_missing_anchor=True)
     _share.share(ctx, rep, c06, ('float-gt', 'float-eq', 'relation.', 'int-gt'), 'relational operators return -1 / 0 according to the derived comparison primitives', tolerate_missing_anchor=True)
